@@ -41,6 +41,59 @@ def prod(a, b):
     return None
 
 
+_LIB = [None]
+_ROLE = {}
+_PV = [None]
+
+
+def helper_role(path):
+    """classify a local helper by what it computes (not by its name): NL | IL | IX | TS | OS | None"""
+    lib = _LIB[0]
+    if path in _ROLE:
+        return _ROLE[path]
+    _ROLE[path] = None
+    f = lib.fns.get(path)
+    if f is None or f.arg_count < 1:
+        return None
+    from bitvec import ev, var_bits
+    from rules.formatrules import const_env
+    rs = [p for p in explore(f, max_visits=1) if p.end == 'return']
+    self_ty = f.local_ty(1)
+    role = None
+    if len(rs) == 1 and f.arg_count == 1:
+        rv = rs[0].ret()
+        env = [(('field', ('param', f.local_name(1), 1), '0'), var_bits('old', 8))] + const_env(lib)
+        b = ev(rv, env, 8)
+        old = var_bits('old', 8)
+        if b == old[4:8] + [0, 0, 0, 0]:
+            role = 'TS'
+        elif b == old[0:4] + [0, 0, 0, 0]:
+            role = 'OS'
+        else:
+            # bool -> 0/1 conversions of "the optional field is absent"
+            x = rv
+            while x[0] == 'cast':
+                x = x[1]
+            if x[0] == 'call' and isinstance(x[1], str) and x[1].endswith('::from') and len(x[2]) == 1:
+                x = x[2][0]
+            if is_call(x, 'Option::<T>::is_none') and x[2][0][0] == 'call' and x[2][0][2] and x[2][0][2][0] == ('param', f.local_name(1), 1):
+                role = 'NL' if 'StateAnyTrans' in self_ty else 'IL'
+    elif len(rs) == 2 and f.arg_count == 1:
+        vals = {}
+        for p in rs:
+            d = [x for x in p.decisions if is_call(x[2], 'Option::<T>::is_none') and x[2][2][0][0] == 'call']
+            if d:
+                vals[d[-1][3]] = p.ret()
+        if vals.get(1) == ('const', 1) and vals.get(0) == ('const', 0):
+            role = 'NL' if 'StateAnyTrans' in self_ty else 'IL'
+    if role is None and f.arg_count == 3 and 'StateAnyTrans' in self_ty:
+        vals = {r.ret() for r in rs}
+        if vals == {('const', 256), ('const', 0)}:
+            role = 'IX'
+    _ROLE[path] = role
+    return role
+
+
 def rlin(e):
     """linear form of a reader offset expression over the named atoms, or None"""
     if not isinstance(e, tuple):
@@ -51,7 +104,8 @@ def rlin(e):
     if h == 'cast':
         return rlin(e[1])
     if h == 'citem':
-        return None
+        v = _LIB[0].const_scalar(e[1]) if _LIB[0] is not None else None
+        return C(v) if v is not None else None
     if h == 'bin':
         op = e[1]
         a, b = rlin(e[2]), rlin(e[3])
@@ -73,19 +127,15 @@ def rlin(e):
     if h == 'call' and isinstance(e[1], str):
         if e[1].endswith('<impl [T]>::len') and e[2][0][0] == 'param' and e[2][0][1] == 'data':
             return START + C(1)
-        m = e[1].rsplit('::', 1)[-1]
-        if m == 'ntrans_len':
-            return NL
-        if m == 'input_len':
-            return IL
-        if m == 'trans_index_size':
-            return IX
-        if m == 'total_trans_size':
-            return TT
-        if m == 'transition_pack_size':
-            return TS
-        if m == 'output_pack_size':
-            return OS
+        if _LIB[0] is not None and e[1] in _LIB[0].fns:
+            r = helper_role(e[1])
+            if r is not None:
+                return {'NL': NL, 'IL': IL, 'IX': IX, 'TS': TS, 'OS': OS}[r]
+            # a single-path helper (e.g. an extracted "offset of the sizes byte"): use its body
+            t = _PV[0].inline_template(e[1])
+            if t is not None:
+                from sym import subst, simplify_proj
+                return rlin(simplify_proj(subst(t, {i + 1: a for i, a in enumerate(e[2])})))
     return None
 
 
@@ -116,6 +166,17 @@ def eq(a, b):
     return d.is_const() and d.c == 0
 
 
+def mirrored(e, is_pos):
+    """e == ntrans - p - 1 for a position expression p"""
+    while e[0] == 'cast':
+        e = e[1]
+    if e[0] == 'bin' and e[1] == 'Sub' and e[3] == ('const', 1) and e[2][0] == 'bin' and e[2][1] == 'Sub':
+        return is_pos(e[2][3]) and any(x[0] == 'field' and x[2] == 'ntrans' for x in walk(e[2][2]))
+    if e[0] == 'bin' and e[1] == 'Sub' and e[2][0] == 'bin' and e[2][1] == 'Sub' and e[2][3] == ('const', 1):
+        return is_pos(e[3]) and any(x[0] == 'field' and x[2] == 'ntrans' for x in walk(e[2][2]))
+    return False
+
+
 def rets(f, havoc=False):
     return [p for p in explore(f, max_visits=1, havoc=havoc) if p.end == 'return']
 
@@ -125,35 +186,87 @@ def guard_val(p, pred):
     return d[-1][3] if d else None
 
 
+def discover(lib):
+    """accessor functions by the role they play in Node::new / Node::transition / Node::find_input (not by name)"""
+    roles = {}
+    new = lib.fn(NODE + 'new')
+    st = lib.adts.get('raw::node::State')
+    if new is not None and st:
+        for p in rets(new):
+            rv = p.ret()
+            if rv[0] != 'agg':
+                continue
+            fd = dict(rv[2])
+            d = [x for x in p.decisions if x[2][0] == 'discr' and is_call(x[2][1], 'State::new')]
+            if not d or not isinstance(d[-1][3], int) or d[-1][3] >= len(st['variants']):
+                continue
+            kind = st['variants'][d[-1][3]]['name']
+            for field in ('end', 'sizes', 'ntrans', 'final_output', 'is_final'):
+                v = fd.get(field)
+                if v is not None and v[0] == 'call' and isinstance(v[1], str) and v[1] in lib.fns:
+                    roles[(kind, field)] = v[1]
+    tr = lib.fn(NODE + 'transition')
+    if tr is not None:
+        for p in rets(tr):
+            rv = p.ret()
+            if rv[0] == 'agg' and rv[1] == 'raw::Transition':
+                fd = dict(rv[2])
+                for field, key in (('inp', 'input'), ('out', 'output'), ('addr', 'trans_addr')):
+                    v = fd.get(field)
+                    if v is not None and v[0] == 'call' and v[1] in lib.fns:
+                        ty = lib.fns[v[1]].impl['self_ty'].rsplit('::', 1)[-1] if lib.fns[v[1]].impl else ''
+                        roles[(ty.replace('State', ''), key)] = v[1]
+    fi = lib.fn(NODE + 'find_input')
+    if fi is not None:
+        for p in rets(fi):
+            rv = p.ret()
+            if rv[0] == 'call' and rv[1] in lib.fns and lib.fns[rv[1]].impl and 'StateAnyTrans' in lib.fns[rv[1]].impl['self_ty']:
+                roles[('AnyTrans', 'find_input')] = rv[1]
+    return roles
+
+
 def run(ctx, R, R2):
     """R = R01.1 (offsets); R2 = R02.2 (scan/index agreement)"""
     lib = ctx.lib
+    from absint import Prover
+    _LIB[0] = lib
+    _PV[0] = Prover(lib)
+    _ROLE.clear()
+    roles = discover(lib)
+    ROLE_OF = {ANY + 'sizes': ('AnyTrans', 'sizes'), ANY + 'ntrans': ('AnyTrans', 'ntrans'), ANY + 'final_output': ('AnyTrans', 'final_output'), ANY + 'end_addr': ('AnyTrans', 'end'),
+               ANY + 'trans_addr': ('AnyTrans', 'trans_addr'), ANY + 'input': ('AnyTrans', 'input'), ANY + 'output': ('AnyTrans', 'output'), ANY + 'find_input': ('AnyTrans', 'find_input'),
+               ONE + 'sizes': ('OneTrans', 'sizes'), ONE + 'end_addr': ('OneTrans', 'end'), ONE + 'output': ('OneTrans', 'output'), ONE + 'trans_addr': ('OneTrans', 'trans_addr'),
+               ONE + 'input': ('OneTrans', 'input'), NEXT + 'input': ('OneTransNext', 'input'), NEXT + 'end_addr': ('OneTransNext', 'end'), NEXT + 'trans_addr': ('OneTransNext', 'trans_addr')}
 
     def need(path):
-        f = lib.fn(path)
+        f = None
+        if path in ROLE_OF and ROLE_OF[path] in roles:
+            f = lib.fn(roles[ROLE_OF[path]])
         if f is None:
+            f = lib.fn(path)
+        if f is None:
+            # helper predicates (ntrans_len, input_len, trans_index_size, total_trans_size) are checked only if they exist under
+            # their pinned names; when they were renamed or inlined the accessors' offsets are still compared through helper_role()
+            if path.rsplit('::', 1)[-1] in ('ntrans_len', 'input_len', 'trans_index_size', 'total_trans_size'):
+                by_role = [g for g in lib.fn_list if helper_role(g.path) == {'ntrans_len': 'NL', 'input_len': 'IL', 'trans_index_size': 'IX'}.get(path.rsplit('::', 1)[-1]) and g.impl and g.impl['self_ty'] == path.rsplit('::', 2)[-2].join(['raw::node::', ''])]
+                return by_role[0] if by_role else None
             ctx.missing(R, 'anchor:' + path, 'accessor %s not found' % path)
         return f
 
     def check_at(name, f, got, want, what):
+        if got is None:
+            ctx.undecided(R, name, 'cannot reconstruct the offset at which %s is read as a linear form over the layout atoms' % what, fn=f)
+            return
         ctx.check(R, eq(got, want), name, '%s reads at offset %s but the layout puts it at %s' % (what, got, want), fn=f, detail={'offset': repr(got), 'layout': repr(want)})
 
     # ---- helpers -----------------------------------------------------------------------------
     f = need(ANY + 'ntrans_len')
     if f:
-        seen = {}
-        for p in rets(f):
-            v = guard_val(p, lambda e: is_call(e, 'Option::<T>::is_none') and is_call(e[2][0], 'state_ntrans'))
-            seen[v] = p.ret()
-        ctx.check(R, seen.get(1) == ('const', 1) and seen.get(0) == ('const', 0), 'any:ntrans_len', 'the count byte is present iff the state byte\'s count field is 0', fn=f)
+        ctx.check(R, helper_role(f.path) == 'NL', 'any:ntrans_len', 'the count byte is present iff the state byte\'s count field is 0 (the helper must be 1 exactly when state_ntrans() is None)', fn=f)
     for ty in (ONE, NEXT):
         f = need(ty + 'input_len')
         if f:
-            seen = {}
-            for p in rets(f):
-                v = guard_val(p, lambda e: is_call(e, 'Option::<T>::is_none') and is_call(e[2][0], 'common_input'))
-                seen[v] = p.ret()
-            ctx.check(R, seen.get(1) == ('const', 1) and seen.get(0) == ('const', 0), ty.rsplit('::', 2)[-2] + ':input_len', 'the explicit input byte is present iff the common-input index is 0', fn=f)
+            ctx.check(R, helper_role(f.path) == 'IL', ty.rsplit('::', 2)[-2] + ':input_len', 'the explicit input byte is present iff the common-input index is 0 (the helper must be 1 exactly when common_input() is None)', fn=f)
     f = need(ANY + 'trans_index_size')
     if f:
         outs = {}
@@ -245,11 +358,16 @@ def run(ctx, R, R2):
                     ctx.check(R, eq(rlin(x[2][1]), OS), 'any:output-width', 'outputs must be read with the output width', fn=f)
     f = need(ANY + 'find_input')
     if f:
-        for p in rets(f):
-            rv = p.ret()
+        scan = {'slice': None, 'map': False, 'eq': False, 'none': False, 'form': None}
+        for p in explore(f, max_visits=1, havoc=True):
+            if p.end not in ('return', 'cut'):
+                continue
             ng = guard_val(p, lambda e: e[0] == 'bin' and e[1] == 'Gt' and e[3] == ('citem', 'raw::node::TRANS_INDEX_THRESHOLD'))
             vg = guard_val(p, lambda e: e[0] == 'bin' and e[1] == 'Ge' and e[3] == ('const', 2))
             if ng == 1 and vg == 1:
+                if p.end != 'return':
+                    continue
+                rv = p.ret()
                 d = [x for x in p.decisions if x[2][0] == 'bin' and x[2][1] in ('Ge', 'Lt') and eq(rlin(x[2][3]), NT)]
                 if not d:
                     ctx.undecided(R2, 'index-path', 'the index path of find_input has no "value >= ntrans" test', fn=f)
@@ -257,38 +375,53 @@ def run(ctx, R, R2):
                 e, val = d[-1][2], d[-1][3]
                 idx = byte_index(e[2])
                 absent = (e[1] == 'Ge') == bool(val)
-                ctx.check(R2, eq(rlin(idx) if idx else None, base_any - IX + B), 'index-path:offset', 'the index entry of byte b is read at %s, the layout puts the table at %s + b' % (rlin(idx) if idx else None, base_any - IX), fn=f)
+                got = rlin(idx) if idx else None
+                if got is None:
+                    ctx.undecided(R2, 'index-path:offset', 'cannot reconstruct where the index entry of byte b is read', fn=f)
+                else:
+                    ctx.check(R2, eq(got, base_any - IX + B), 'index-path:offset', 'the index entry of byte b is read at %s, the layout puts the table at %s + b' % (got, base_any - IX), fn=f)
                 if absent:
                     ctx.check(R2, rv[0] == 'agg' and rv[1].endswith('::None'), 'index-path:absent', 'an index entry >= ntrans must mean "no transition"', fn=f)
                 else:
                     ctx.check(R2, rv[0] == 'agg' and rv[1].endswith('::Some') and byte_index(rv[2][0][1]) is not None, 'index-path:present', 'an index entry < ntrans is the (forward) transition number', fn=f)
-            else:
-                # linear scan over the stored inputs: storage position p <-> transition ntrans - 1 - p
-                sl = [x for x in walk(rv) if is_call(x, 'Index<I> for [T]>::index') and x[2][1][0] == 'agg' and x[2][1][1].endswith('ops::Range')]
-                ok = False
-                why = fmt(rv)[:100]
-                if len(sl) >= 1 and is_call(rv, 'Option::<T>::map'):
-                    rg = dict(sl[0][2][1][2])
-                    s, en = rlin(rg.get('start')), rlin(rg.get('end'))
-                    want_s = base_any - NT        # IX = 0 on this path
-                    pos = [x for x in walk(rv) if is_call(x, '::position')]
-                    clo = [x for x in walk(rv) if x[0] == 'closure']
-                    okmap = okeq = False
-                    for c in clo:
+                continue
+            # ---- linear scan over the stored inputs: storage position p <-> transition ntrans - 1 - p --------
+            for (k, bid, callee, args, t) in path_calls(p):
+                if isinstance(callee, str) and callee.endswith('Index<I> for [T]>::index') and args[1][0] == 'agg' and args[1][1].endswith('ops::Range'):
+                    rg = dict(args[1][2])
+                    scan['slice'] = (rlin(rg.get('start')), rlin(rg.get('end')))
+            if p.end == 'return':
+                rv = p.ret()
+                if is_call(rv, 'Option::<T>::map') and any(is_call(x, '::position') for x in walk(rv)):
+                    scan['form'] = 'position+map'
+                    for c in [x for x in walk(rv) if x[0] == 'closure']:
                         cf = lib.fns.get(c[1])
                         if cf is None:
                             continue
                         rr = [q.ret() for q in rets(cf)]
                         if len(rr) == 1 and rr[0][0] == 'bin' and rr[0][1] == 'Eq':
-                            okeq = True
-                        if len(rr) == 1:
-                            l = rr[0]
-                            # ntrans - i - 1
-                            if l[0] == 'bin' and l[1] == 'Sub' and l[3] == ('const', 1) and l[2][0] == 'bin' and l[2][1] == 'Sub' and l[2][3][0] == 'param' and any(x[0] == 'field' and x[2] == 'ntrans' for x in walk(l[2][2])):
-                                okmap = True
-                    ok = (eq(s, want_s) or eq(s, want_s - IX)) and eq(en - s, NT) and bool(pos) and okmap and okeq
-                    why = 'slice [%s, %s), position->index map ok: %s, equality predicate: %s' % (s, en, okmap, okeq)
-                ctx.check(R2, ok, 'scan-path', 'without an index the inputs [start-of-inputs, +ntrans) are scanned and storage position p means transition ntrans-1-p (inputs are stored in reverse): %s' % why, fn=f)
+                            scan['eq'] = True
+                        if len(rr) == 1 and mirrored(rr[0], lambda x: x[0] == 'param'):
+                            scan['map'] = True
+                    scan['none'] = True     # position() yields None when nothing matches
+                elif rv[0] == 'agg' and rv[1].endswith('::Some'):
+                    # explicit loop with early return
+                    scan['form'] = scan['form'] or 'loop'
+                    d = [x for x in p.decisions if x[2][0] == 'bin' and x[2][1] == 'Eq' and x[3] == 1 and any(y[0] == 'param' and y[1] == 'b' for y in walk(x[2]))]
+                    scan['eq'] = scan['eq'] or bool(d)
+                    if mirrored(rv[2][0][1], lambda x: x[0] == 'field' and x[2] == '0' and any(is_call(y, '::next') for y in walk(x))):
+                        src = None
+                        from rules.layout import iter_source
+                        for h in f.loops():
+                            src = iter_source(f, h) or src
+                        scan['map'] = src is not None and src[0] == 'fwd' and src[1]
+                elif rv[0] == 'agg' and rv[1].endswith('::None'):
+                    scan['none'] = True
+        sl = scan['slice']
+        ok_slice = sl is not None and sl[0] is not None and sl[1] is not None and (eq(sl[0], base_any - NT) or eq(sl[0], base_any - NT - IX)) and eq(sl[1] - sl[0], NT)
+        ctx.check(R2, bool(ok_slice and scan['map'] and scan['eq'] and scan['none']), 'scan-path',
+                  'without an index exactly the stored inputs [start-of-inputs, +ntrans) are scanned for the probe byte and storage position p means transition ntrans-1-p (inputs are stored in reverse): slice %s, mirrored index %s, equality test %s, miss -> None %s (%s)' % (
+                      sl, scan['map'], scan['eq'], scan['none'], scan['form']), fn=f)
     # ---- one-trans -------------------------------------------------------------------------------------
     base_one = START - IL - C(1)
     f = need(ONE + 'sizes')
